@@ -284,6 +284,8 @@ impl Model {
     }
 }
 
+static CFG_FAIL_ROT: std::sync::atomic::AtomicUsize = std::sync::atomic::AtomicUsize::new(0);
+
 pub struct StepObs {
     pub result: String,
     pub msgs: Vec<spec::RawMsg>,
@@ -300,7 +302,18 @@ pub fn send_sym(peer: &std::os::unix::net::UnixStream, srv: &mut util::Srv, be: 
         let mut g = be.lock().unwrap();
         g.script.features = features_offered;
         g.script.fail = if s.fail { vec!["*"] } else { vec![] };
-        g.script.config = if s.fail { CfgOut::Err } else { CfgOut::Right };
+        // a failing configuration read is any unusable handler result: an error, or data of the wrong length
+        // (one byte short, one byte long, empty); the protocol's in-band encoding is the same for all of them
+        g.script.config = if s.fail {
+            match CFG_FAIL_ROT.fetch_add(1, std::sync::atomic::Ordering::Relaxed) % 4 {
+                0 => CfgOut::Err,
+                1 => CfgOut::Short,
+                2 => CfgOut::Long,
+                _ => CfgOut::Empty,
+            }
+        } else {
+            CfgOut::Right
+        };
         g.script.dev_state = if s.fail { DevStateOut::Err } else { DevStateOut::NoFile };
         g.held.clear();
         g.backend = None;
